@@ -2181,6 +2181,9 @@ func (t *tScreen) disengage() {
 	}
 	t.TPuts(ti.ResetFgBg)
 	t.TPuts(ti.AttrOff)
+	// AttrOff does not end a hyperlink; one left open by the last cell
+	// drawn would swallow whatever the shell prints next
+	t.TPuts(t.exitUrl)
 	t.TPuts(ti.ExitKeypad)
 	t.TPuts(ti.EnableAutoMargin)
 	if os.Getenv("TCELL_ALTSCREEN") != "disable" {
